@@ -58,6 +58,7 @@ macro_rules! run_ty {
     ($out:ident, $rng:ident, $ty:ty, $tyname:expr, $hex:ident, $tok:ident, $bits:expr, $shift:expr, $small:expr) => {{
         let id = $out.fresh_id("cat");
         let wts: Vec<$ty> = gen_weights(&mut $rng, $small).iter().map(|x| *x as $ty).collect();
+        let wts2: Vec<$ty> = gen_weights(&mut $rng, !$small).iter().map(|x| *x as $ty).collect();
         let extra_random = $rng.range(2, 6);
         let seeds: Vec<u64> = (0..extra_random).map(|_| $rng.next()).collect();
         if $out.selected(&id) {
@@ -123,6 +124,27 @@ macro_rules! run_ty {
                     if cat.probs[0] == 0.0 { out.count("leading_zero_prob"); }
                     if cat.probs[n - 1] == 0.0 { out.count("trailing_zero_prob"); }
                     out.nontrivial(&format!("{}:{:?}:{k}", $tyname, wts.iter().map(|x| x.to_bits() as u64).collect::<Vec<_>>()));
+                }
+                // the public `probs` field is an input too: overwrite it after construction (another length, other
+                // zero pattern) and sample / evaluate again
+                if seeds[0] % 4 == 0 {
+                    let other = Categorical::<$ty>::new(wts2.clone()).probs;
+                    for (j, k) in ks.iter().enumerate().take(12) {
+                        let word = (k << $shift) | (0x3333_3333_3333_3333u64 & ((1u64 << $shift) - 1));
+                        let mut cat = Categorical::<$ty>::verif_with_rng(wts.clone(), crafted_rng(word));
+                        cat.probs = other.clone();
+                        let r: $ty = (*k as f64 / grid) as $ty;
+                        let idx = cat.sample();
+                        let cid = format!("{id}.p{j}");
+                        out.count("predicate_evaluations");
+                        if idx >= other.len() || (other.iter().any(|x| *x > 0.0) && !(other[idx] > 0.0)) {
+                            out.fail(&cid, "C16:zero-prob-category:probs-overwritten", "after `probs` was overwritten, sample() returned an invalid or zero-probability category", other.len() as u64,
+                                format!("probs={other:?} r={r} idx={idx}"));
+                        }
+                        let all_lp = (0..other.len()).map(|i| $tok(cat.logp(i))).collect::<Vec<_>>().join(" ");
+                        out.case(format!("c16p {cid} {} {} ; {}", $tyname, $hex(r), other.iter().map(|x| $hex(*x)).collect::<Vec<_>>().join(" ")), format!("{cid} {idx} # {all_lp}"));
+                    }
+                    out.count("probs_overwritten_after_construction");
                 }
                 out.count(&format!("weights_{}", $tyname));
             });
